@@ -260,6 +260,12 @@ func execRunInner(t *testing.T, rs RunSpec, keepTrace bool, res *Result) {
 		func() {
 			defer func() {
 				if r := recover(); r != nil {
+					if d, ok := r.(simrt.InlineDeadlock); ok {
+						// code under test, executed sequentially by the scenario, took a lock it
+						// already holds: in the daemon that goroutine blocks forever
+						res.Violations = append(res.Violations, Violation{Prop: rs.Prop, Class: "deadlock", Msg: "a sequence of calls into the code under test deadlocks on its own: " + d.Error()})
+						return
+					}
 					res.Abort = fmt.Sprintf("scenario panic: %v\n%s", r, debug.Stack())
 				}
 			}()
